@@ -14,6 +14,7 @@ import (
 	"time"
 
 	"go.nanomsg.org/mangos/v3/verifsim/simrt"
+	"go.nanomsg.org/mangos/v3/verifsim/srand"
 )
 
 type Scenario struct {
@@ -235,6 +236,17 @@ func runOne(t *testing.T, sc *Scenario, prop string, idx int, seed uint64, repla
 }
 
 func runScenario(w *W, sc *Scenario) {
+	// math/rand inside the library (dial back-off jitter) draws from a stream
+	// seeded by the run's seed, never from the process-wide generator
+	rs := w.Seed | 1
+	src := func() uint64 {
+		rs ^= rs << 13
+		rs ^= rs >> 7
+		rs ^= rs << 17
+		return rs
+	}
+	srand.Source.Store(&src)
+	defer srand.Source.Store(nil)
 	if !w.Free {
 		// process-wide state: start every run from the same point
 		var start uint32
